@@ -4,10 +4,11 @@ import LhasaV.Driver.OpsDecoder
 import LhasaV.Driver.OpsReader
 import LhasaV.Driver.OpsSpec
 import LhasaV.Driver.OpsExtract
+import LhasaV.Driver.OpsList
 /-! `lhv`: one operation per input line, one canonical result line per operation. -/
 namespace LhasaV.Driver
 
-def dispatchers : List (List String → Option String) := [opCrc, opHeader, opDecoder, opReader, opSpec, opExtract]
+def dispatchers : List (List String → Option String) := [opCrc, opHeader, opDecoder, opReader, opSpec, opExtract, opList]
 
 def runLine (line : String) : String :=
   let toks := (line.trimAscii.toString.splitOn " ").filter (· ≠ "")
